@@ -54,3 +54,27 @@ SPECS["C19"] = dict(
     level_note="Trusted: rustc's MIR dump, the translator lib/smt_invhash.py (cross-validated on every run against the compiled functions on ~230 concrete inputs per function), cvc5 1.0 / z3 4.8.12 (answers cross-checked; any (error or disagreement = not decided). A sat answer is replayed through the compiled functions before it is reported.",
     technique="MIR-to-SMT-LIB2 translation, per-stage inverse lemmas decided by cvc5 (bv-as-int and bit-blasting) and z3",
 )
+
+
+# --------------------------------------------------------------------------------------- C17
+_c17 = []
+for m in range(1, 8):
+    t = "quick" if m in (1, 3, 4) else "thorough"
+    _c17.append(H("c17_step_m%d" % m, timeout=900, tier=t, desc="one FYshuffle::next from any reachable state (v a permutation, lastidx<=m), any generator output", bounds="m=%d" % m))
+    _c17.append(H("c17_reset_m%d" % m, timeout=600, tier=t, desc="reset() from arbitrary content == new(m) up to the two fresh representations, which draw identically", bounds="m=%d" % m))
+    _c17.append(H("c17_cells_n%d" % m, timeout=900, tier="quick" if m in (3, 4) else "thorough", desc="slot map u -> floor(u*n): float slot == exact slot except within 2 grid points (2^-52) of a cell boundary; never n", bounds="n=%d, all 2^52 values of u" % m))
+for m, t in ((2, "quick"), (3, "quick"), (4, "thorough")):
+    _c17.append(H("c17_block_m%d" % m, timeout=1800, tier=t, desc="full block of m draws from the fresh state, two generators: outputs pairwise distinct, equal to v; choice vector -> permutation injective", bounds="m=%d" % m))
+SPECS["C17"] = dict(
+    level="model_checking", harnesses=_c17,
+    functions=["fyshuffle::FYshuffle::{new, next, reset, get_values}", "rand::distr::Uniform<f64>::sample (real code)"],
+    bounds={"quick": "step/reset m in {1,3,4}; cell lemma n in {3,4}; block injectivity m in {2,3}",
+            "thorough": "step/reset/cells m in 1..=7; block injectivity m in {2,3,4}"},
+    outside="m > 7; the uniformity of the generator's u64 outputs is assumed (a measure, not decidable by a solver); uniformity of permutations is reduced to the two forall-lemmas (equal cells, injective choice map)",
+    assumptions=["generator = memoised oracle: any u64 per draw, a function of (seed, draw number) (models/rand_xoshiro)",
+                 "reachable states: v is a permutation of 0..m and lastidx <= m (holds for new/reset, preserved by next: checked)"],
+    not_decided=["'every one of the m! orders has equal probability' as a probability statement: only its forall-reduction is decided"],
+    level_text="Bounded model checking of FYshuffle::next/reset over every reachable state and every generator output for the listed sizes: a block of m draws after a reset returns each value once, earlier positions are never touched, reset forgets all history, and the slot map / choice-vector map lemmas that reduce uniformity to the uniformity of the generator.",
+    level_note="Trusted: Kani/CBMC, the Xoshiro oracle model (models/rand_xoshiro). Sizes bounded as listed. Probability statement reduced to forall-lemmas; generator uniformity assumed.",
+    technique="Kani/CBMC bounded model checking, inductive step over symbolic permutation state with an oracle RNG model",
+)
